@@ -135,3 +135,41 @@ fn kf_c04_read_only_refused_still_fails() {
 //@ bound: write skew with clean-up between the two commits, all Serializable: begin T0; begin T1; read(T0,e0); read(T1,e1); write(T0,e1); write(T1,e0); commit T0; gc; commit T1
 //@ oracle: gc between the commits must not forget the first committer while the second (Serializable) is still active: T1 is refused exactly as without gc
 hist4!(c04_write_skew_gc_between, s, [any_node(), any_node()], [2, 2, 2], { s.b(0); s.b(1); s.r(0,0); s.r(1,1); s.w(0,1); s.w(1,0); s.c(0); s.g(); s.c(1); }, |m, same| m == 0b01 && !same);
+
+//@ property: C04
+//@ tier: quick
+//@ cap_s: 400
+//@ unwind: 5
+//@ stubs: parking_lot slow paths, alloc::fmt::format
+//@ encodes: TransactionManager::{begin_with_isolation,record_read,record_write,commit,state}, EntityId::eq
+//@ symbolic: one id shared by a node and an edge (all 64 bits)
+//@ bound: write skew over a node and an edge with the SAME numeric id, all Serializable: begin T0; begin T1; read(T0,N); read(T0,E); read(T1,N); read(T1,E); write(T0,N); write(T1,E); commit T0; commit T1
+//@ oracle: T1 read the node T0 modified: refused with SerializationFailure (a node and an edge are different entities even with equal ids)
+#[kani::proof]
+#[kani::unwind(5)]
+#[kani::stub(parking_lot::RawRwLock::lock_exclusive_slow, lk_slow)]
+#[kani::stub(parking_lot::RawRwLock::lock_shared_slow, lk_sh_slow)]
+#[kani::stub(parking_lot::RawRwLock::unlock_exclusive_slow, ulk_slow)]
+#[kani::stub(parking_lot::RawRwLock::unlock_shared_slow, ulk_sh_slow)]
+#[kani::stub(alloc::fmt::format, fmt_stub)]
+fn c04_write_skew_node_and_edge_same_id() {
+    use grafeo_common::types::{EdgeId, NodeId};
+    let id: u64 = kani::any();
+    let ent = [EntityId::Node(NodeId::new(id)), EntityId::Edge(EdgeId::new(id))];
+    let mut s = Sim::new(&ent, [2, 2, 2]);
+    s.b(0); s.b(1); s.r(0,0); s.r(0,1); s.r(1,0); s.r(1,1); s.w(0,0); s.w(1,1); s.c(0); s.c(1);
+    assert!(s.mask == 0b01);
+    kani::cover!(true);
+    std::mem::forget(s);
+}
+
+//@ property: C04
+//@ tier: quick
+//@ cap_s: 400
+//@ unwind: 5
+//@ stubs: parking_lot slow paths, alloc::fmt::format
+//@ encodes: TransactionManager::{begin_with_isolation,record_read,record_write,commit,state}
+//@ symbolic: two entities (nodes, all id bits)
+//@ bound: staggered starts, all Serializable: begin T0; read(T0,e0); read(T0,e1); write(T0,e1); begin T2; commit T2 (epoch advances); begin T1 (later epoch); read(T1,e0); read(T1,e1); write(T1,e0); commit T1; commit T0
+//@ oracle: T1 began later than T0 but committed during T0's lifetime and wrote what T0 read: T0 is refused (overlap = "committed after I began", whoever began first)
+hist4!(c04_write_skew_staggered_starts, s, [any_node(), any_node()], [2, 2, 2], { s.b(0); s.r(0,0); s.r(0,1); s.w(0,1); s.b(2); s.c(2); s.b(1); s.r(1,0); s.r(1,1); s.w(1,0); s.c(1); s.c(0); }, |m, same| m == 0b110 && !same);
